@@ -186,3 +186,38 @@ Proof.
   destruct (read offset) as [len|] eqn:E; [|reflexivity].
   pose proof (H _ _ E) as Hl. destruct (0 <? len) eqn:El; [apply IH; exact H|lia].
 Qed.
+
+(* ---------------------------------------------------------------- dotnet finalize: method ranges *)
+Lemma index_loop_no_panic : forall count i len, i + N.of_nat count <= len -> index_loop count i len <> Panic.
+Proof.
+  induction count as [|c IH]; intros i len H; cbn [index_loop]; [discriminate|].
+  destruct (i <? len) eqn:E; [apply IH; lia|lia].
+Qed.
+
+Lemma finalize_methods_fixed_no_panic :
+  forall classes_rev last len, finalize_methods true classes_rev last len <> Panic.
+Proof.
+  induction classes_rev as [|[idx|] rest IH]; intros last len; cbn [finalize_methods]; [discriminate| |apply IH].
+  destruct (idx <=? len) eqn:E; cbn [bind]; [|apply IH].
+  pose proof (index_loop_no_panic (N.to_nat (N.min last len - idx)) idx len) as H.
+  destruct (index_loop (N.to_nat (N.min last len - idx)) idx len); cbn [bind]; try discriminate; [apply IH|].
+  exfalso. apply H; [lia|reflexivity].
+Qed.
+
+(* finding C09-dotnet-method-range: a class whose method list index exceeds the method count poisons the range of
+   the class visited next *)
+Lemma finalize_methods_pinned_refuted :
+  finalize_methods false [Some 1000; Some 5] 29 29 = Panic.
+Proof. vm_compute. reflexivity. Qed.
+
+(* the repair is conservative: when every index is within the table, both loops do the same *)
+Lemma finalize_methods_fix_conservative :
+  forall classes_rev last len,
+    last <= len -> Forall (fun o => match o with Some idx => idx <= len | None => True end) classes_rev ->
+    finalize_methods true classes_rev last len = finalize_methods false classes_rev last len.
+Proof.
+  induction classes_rev as [|[idx|] rest IH]; intros last len Hl HF; cbn [finalize_methods]; [reflexivity| |].
+  - inversion HF as [|? ? H0 Hr]; subst. replace (N.min last len) with last by lia.
+    rewrite (IH idx len H0 Hr). reflexivity.
+  - inversion HF as [|? ? H0 Hr]; subst. apply IH; assumption.
+Qed.
